@@ -221,6 +221,34 @@ fn opth(v: &Option<String>) -> String {
 }
 
 impl Cfg {
+    /// inverse of `line`
+    pub fn parse_line(line: &str) -> Option<Cfg> {
+        let w: Vec<&str> = line.split(' ').collect();
+        if w.len() != 12 || w[0] != "cfg" {
+            return None;
+        }
+        let s = |x: &str| -> Option<Option<String>> {
+            if x == "-" { Some(None) } else { String::from_utf8(crate::util::unhex(x)).ok().map(Some) }
+        };
+        let n = |x: &str| -> Option<Option<u64>> { if x == "-" { Some(None) } else { x.parse().ok().map(Some) } };
+        let b = |x: &str| -> Option<Option<bool>> {
+            match x { "-" => Some(None), "1" => Some(Some(true)), "0" => Some(Some(false)), _ => None }
+        };
+        Some(Cfg {
+            tab: w[1].parse().ok()?,
+            spaces: w[2] == "1",
+            profile: s(w[3])?,
+            indent_width: n(w[4])?,
+            insert_spaces: b(w[5])?,
+            keyword_case: s(w[6])?,
+            align_var: b(w[7])?,
+            align_asg: b(w[8])?,
+            max_len: n(w[9])?,
+            spacing: s(w[10])?,
+            end_kw: s(w[11])?,
+        })
+    }
+
     pub fn line(&self) -> String {
         format!(
             "cfg {} {} {} {} {} {} {} {} {} {} {}",
@@ -321,7 +349,27 @@ const IDENTS: &[&str] = &[
     "s", "ms", "FF", "a1", "out", "in1", "state", "t1",
 ];
 const TYPES: &[&str] = &["INT", "BOOL", "REAL", "DINT", "TIME", "STRING", "WORD", "LREAL", "TON", "MyType", "USINT"];
+/// lines whose TEXT looks like code where it is not: `//`, `:=`, `=>`, `:` inside strings and comments,
+/// commented-out assignments, next to real assignments (text-search helpers of a formatter trip here)
+const RISKY_LINES: &[&str] = &[
+    "url := 'http://plc.local/api';  // REST endpoint",
+    "msg := 'see // docs'; // trailing",
+    "path := \"ftp://host/a\";\t// wide",
+    "// level := 0;",
+    "// out => 1, gain := 2",
+    "Log('gain => high');",
+    "Log('level := 0, mode: auto');",
+    "level := 0;",
+    "gain_longer_name := 3;",
+    "x:=y+1;  // x := y",
+    "t1(IN := a, PT => b);  // IN := a",
+    "s := 'a:b'; // c: d",
+    "(* level := 0; *)",
+    "Log('a, b, c => d');",
+];
+
 const STRINGS: &[&str] = &[
+    "'http://plc.local/api'", "'see // docs'", "'gain => high'", "'level := 0'",
     "'a'", "''", "'it$'s'", "'a:b'", "'x := 1'", "'a,b,c,d,e,f'", "'(* no comment *)'", "'// no'", "'{not pragma}'",
     "'h\u{e9}llo \u{1F600}'", "\"wide\"", "\"w$\"q\"", "'=> x'", "'a  b   c'", "'$N$L'", "'TOD#12:30:00'",
 ];
@@ -332,6 +380,7 @@ const LITERALS: &[&str] = &[
 ];
 const BINOPS: &[&str] = &["+", "-", "*", "/", "**", "=", "<>", "<", "<=", ">", ">=", "AND", "OR", "XOR", "MOD", "&"];
 const LINE_COMMENTS: &[&str] = &[
+    "// level := 0;", "// gain => high, x := 1", "// see http://plc.local/api",
     "// plain", "// x := 1; (* not *)", "//", "// tr\u{e4}il \u{1F600}", "// a, b, c := 1 => 2", "// END_IF",
 ];
 const BLOCK_COMMENTS: &[&str] = &[
@@ -353,6 +402,8 @@ pub struct TextGen<'a> {
     /// free of them and an unrelated failure is not hidden behind a known one
     multiline_comments: bool,
     typed_literals: bool,
+    /// runs of 3-6 blank lines (a formatter that squeezes them must keep range / on-type edits aligned)
+    blank_runs: bool,
     pub tags: BTreeSet<&'static str>,
 }
 
@@ -361,7 +412,8 @@ impl<'a> TextGen<'a> {
         let sloppy = *r.pick(&[0u64, 10, 40, 80]);
         let multiline_comments = r.chance(1, 5);
         let typed_literals = r.chance(1, 6);
-        TextGen { r, lines: Vec::new(), sloppy, multiline_comments, typed_literals, tags: BTreeSet::new() }
+        let blank_runs = r.chance(1, 3);
+        TextGen { r, lines: Vec::new(), sloppy, multiline_comments, typed_literals, blank_runs, tags: BTreeSet::new() }
     }
 
     fn ident(&mut self) -> String {
@@ -502,7 +554,9 @@ impl<'a> TextGen<'a> {
     }
 
     fn trailer(&mut self, body: &mut String) {
-        match self.r.below(14) {
+        // a string literal and a trailing comment on one line is what text-search helpers trip over
+        let k = if body.contains('\'') && self.r.chance(1, 3) { 0 } else { self.r.below(14) };
+        match k {
             0 => {
                 self.tags.insert("line-comment");
                 body.push(' ');
@@ -552,8 +606,80 @@ impl<'a> TextGen<'a> {
                 self.push(indent, c);
             }
             5 => self.lines.push("   ".into()),
+            6 | 7 if self.blank_runs => self.blank_run(),
+            8 => self.risky_group(indent),
             _ => {}
         }
+    }
+
+    /// 3-6 blank lines, some of them with trailing blanks
+    fn blank_run(&mut self) {
+        self.tags.insert("blank-run");
+        let n = 3 + self.r.below(4);
+        for _ in 0..n {
+            let l = *self.r.pick(&["", "", "", "  ", "\t", "    \t"]);
+            self.lines.push(l.to_string());
+        }
+    }
+
+    /// 2-5 adjacent lines with the same indentation out of `RISKY_LINES`
+    fn risky_group(&mut self, indent: usize) {
+        self.tags.insert("risky-lines");
+        let n = 2 + self.r.below(4);
+        let lead = match self.r.below(4) {
+            0 => String::new(),
+            1 => "\t".repeat(indent),
+            _ => "    ".repeat(indent),
+        };
+        for _ in 0..n {
+            let l = *self.r.pick(RISKY_LINES);
+            self.lines.push(format!("{lead}{l}"));
+        }
+    }
+
+    /// a call statement that is longer than any line limit the configurations use
+    fn long_call(&mut self, indent: usize) {
+        self.tags.insert("long-line");
+        let mut toks = vec![self.ident(), "(".into()];
+        let n = 6 + self.r.below(10);
+        for k in 0..n {
+            if k > 0 {
+                toks.push(",".into());
+            }
+            toks.push(self.ident());
+            toks.push(if self.r.chance(1, 4) { "=>" } else { ":=" }.into());
+            toks.push(self.ident());
+        }
+        toks.push(")".into());
+        toks.push(";".into());
+        let body = self.join(&toks);
+        self.push(indent, body);
+    }
+
+    /// small programs made of the constructs above: a wrapping line on top, blank runs, risky groups,
+    /// an IF block (range targets) - with many range / on-type requests per text
+    pub fn risky(&mut self) {
+        self.blank_runs = true;
+        self.lines.push(format!("PROGRAM {}", self.r.pick(IDENTS)));
+        let n = 2 + self.r.below(5);
+        for _ in 0..n {
+            match self.r.below(7) {
+                0 => self.long_call(1),
+                1 | 2 => self.blank_run(),
+                3 | 4 => self.risky_group(1),
+                5 => {
+                    self.push(1, "IF a THEN".into());
+                    let b = *self.r.pick(&["a:=1;", "b:=a+1;", "url := 'http://x/y'; // u"]);
+                    self.push(2, b.into());
+                    self.push(1, "END_IF".into());
+                }
+                _ => {
+                    let b = *self.r.pick(&["b:=a+1;", "x := 1;", "y:=x;"]);
+                    self.push(1, b.into());
+                }
+            }
+        }
+        self.lines.push("END_PROGRAM".into());
     }
 
     fn var_block(&mut self, indent: usize) {
@@ -936,7 +1062,10 @@ pub fn gen_text(r: &mut Rng) -> (String, Vec<&'static str>) {
     let mode = r.below(100);
     let mut g = TextGen::new(r);
     let kind: &'static str;
-    if mode < 50 {
+    if mode < 12 {
+        kind = "risky";
+        g.risky();
+    } else if mode < 50 {
         kind = "valid";
         g.program();
     } else if mode < 72 {
@@ -1552,7 +1681,15 @@ fn lsp_request(sessions: &mut Sessions, cfg: &Cfg, settings: &Value, text: &str,
     Ok(reply)
 }
 
+thread_local! {
+    /// (op, what) of the oracle failures of the case being run (read by the neighbourhood search)
+    static CASE_FAILURES: std::cell::RefCell<Vec<(String, String)>> = const { std::cell::RefCell::new(Vec::new()) };
+}
+
 fn oracle_line(out: &mut Out, doc: &str, op: &str, verdict: &str, what: &str, detail: &str) {
+    if verdict != "ok" {
+        CASE_FAILURES.with(|f| f.borrow_mut().push((op.to_string(), what.to_string())));
+    }
     out.line(format!(
         "# oracle {}",
         json!({"doc": doc, "op": op, "verdict": verdict, "what": what, "detail": detail})
@@ -1757,6 +1894,224 @@ fn gen_positions(r: &mut Rng, text: &str) -> (Vec<(u32, u32, u32, u32)>, Vec<(u3
     (ranges, pos)
 }
 
+// ---------------------------------------------------------------------------------------------
+// Neighbourhood search around a model-vs-implementation disagreement, and shrinking
+// ---------------------------------------------------------------------------------------------
+
+fn dense_positions(r: &mut Rng, text: &str, k: usize) -> (Vec<(u32, u32, u32, u32)>, Vec<(u32, u32)>) {
+    let (mut ranges, mut pos) = gen_positions(r, text);
+    let lines: Vec<&str> = text.split('\n').collect();
+    let code: Vec<u32> = lines.iter().enumerate().filter(|(_, l)| !l.trim().is_empty()).map(|(i, _)| i as u32).collect();
+    for _ in 0..k {
+        if code.is_empty() {
+            break;
+        }
+        let l = *r.pick(&code);
+        pos.push((l, lines[l as usize].trim_end_matches('\r').chars().count() as u32));
+        let l2 = *r.pick(&code);
+        ranges.push((l2.min(l), 0, l2.max(l), 1));
+    }
+    (ranges, pos)
+}
+
+/// A variant of `source`: 1-3 snippets of the constructs text-based helpers trip over (risky lines, blank
+/// runs, a line that wraps) spliced in at random places, with the indentation of the neighbouring line.
+fn neighbour_text(r: &mut Rng, source: &str) -> String {
+    let crlf = source.contains("\r\n");
+    let mut lines: Vec<String> = source.split('\n').map(|l| l.trim_end_matches('\r').to_string()).collect();
+    let n = 1 + r.below(3);
+    for _ in 0..n {
+        let at = r.below(lines.len() as u64 + 1) as usize;
+        let lead: String = lines[at.min(lines.len() - 1)..]
+            .iter()
+            .chain(lines[..at.min(lines.len())].iter().rev())
+            .find(|l| !l.trim().is_empty())
+            .map(|l| l.chars().take_while(|c| *c == ' ' || *c == '\t').collect())
+            .unwrap_or_default();
+        let mut snippet: Vec<String> = Vec::new();
+        match r.below(6) {
+            0 => {
+                for _ in 0..(3 + r.below(4)) {
+                    snippet.push(r.pick(&["", "", "  ", "\t"]).to_string());
+                }
+            }
+            1 => {
+                let mut t = format!("{lead}{}(", r.pick(IDENTS));
+                for k in 0..(6 + r.below(8)) {
+                    if k > 0 {
+                        t.push_str(", ");
+                    }
+                    t.push_str(&format!("{} := {}", r.pick(IDENTS), r.pick(IDENTS)));
+                }
+                t.push_str(");");
+                snippet.push(t);
+            }
+            _ => {
+                for _ in 0..(1 + r.below(3)) {
+                    snippet.push(format!("{lead}{}", r.pick(RISKY_LINES)));
+                }
+            }
+        }
+        for (k, l) in snippet.into_iter().enumerate() {
+            lines.insert((at + k).min(lines.len()), l);
+        }
+    }
+    lines.join(if crlf { "\r\n" } else { "\n" })
+}
+
+fn neighbour_cfg(r: &mut Rng, base: &Cfg) -> Cfg {
+    let mut c = base.clone();
+    match r.below(3) {
+        0 => {}
+        1 => c.max_len = Some(*r.pick(&[30u64, 40, 60])),
+        _ => {
+            c.max_len = None;
+            if r.bool() {
+                c.align_asg = Some(r.bool());
+            }
+            if r.bool() {
+                c.align_var = Some(r.bool());
+            }
+        }
+    }
+    c
+}
+
+struct Prober<'a> {
+    sessions: &'a mut Sessions,
+    web: &'a (WebIdeState, String),
+    doc_no: &'a mut u64,
+    budget: u64,
+}
+
+impl<'a> Prober<'a> {
+    fn lsp(&mut self, cfg: &Cfg, settings: &Value, text: &str, req: &Req) -> Option<Reply> {
+        if self.budget == 0 {
+            return None;
+        }
+        self.budget -= 1;
+        lsp_request(self.sessions, cfg, settings, text, req, self.doc_no).ok()
+    }
+
+    fn differs(text: &str, reply: &Reply) -> Option<String> {
+        match reply {
+            Reply::Edits(es) => compare(&canon(text), &canon(&apply_edits(text, es))).err().map(|(w, _)| w),
+            Reply::Panic => Some("panic".into()),
+            _ => None,
+        }
+    }
+
+    /// Does the failure `(op, what)` occur on `text`?  For range / on-type every line is tried; the
+    /// position that fails is returned.
+    fn fails(&mut self, cfg: &Cfg, settings: &Value, text: &str, op: &str, what: &str) -> Option<Option<(u32, u32)>> {
+        let nlines = text.split('\n').count() as u32;
+        match op {
+            "full" => {
+                let rep = self.lsp(cfg, settings, text, &Req::Full)?;
+                (Self::differs(text, &rep).as_deref() == Some(what)).then_some(None)
+            }
+            "idem" => {
+                let rep = self.lsp(cfg, settings, text, &Req::Full)?;
+                let Reply::Edits(es) = &rep else { return None };
+                let f = apply_edits(text, es);
+                let again = self.lsp(cfg, settings, &f, &Req::Full)?;
+                matches!(&again, Reply::Edits(es2) if !es2.is_empty()).then_some(None)
+            }
+            "ontype" | "range" => {
+                for l in 0..nlines {
+                    if text.split('\n').nth(l as usize).map(|s| s.trim().is_empty()).unwrap_or(true) {
+                        continue;
+                    }
+                    let req = if op == "ontype" { Req::OnType(l, 0) } else { Req::Range(l, 0, l, 1) };
+                    let rep = self.lsp(cfg, settings, text, &req)?;
+                    if Self::differs(text, &rep).as_deref() == Some(what) {
+                        return Some(Some((l, 0)));
+                    }
+                }
+                None
+            }
+            "web" => {
+                let w = web_format(&self.web.0, &self.web.1, text).ok()?;
+                (compare(&canon(text), &canon(&w)).err().map(|(w, _)| w).as_deref() == Some(what)).then_some(None)
+            }
+            "web-idem" => {
+                let w = web_format(&self.web.0, &self.web.1, text).ok()?;
+                let w2 = web_format(&self.web.0, &self.web.1, &w).ok()?;
+                (w2 != w).then_some(None)
+            }
+            _ => None,
+        }
+    }
+
+    /// Greedy line removal while the same failure persists.
+    fn shrink(&mut self, cfg: &Cfg, settings: &Value, text: &str, op: &str, what: &str) -> (String, Option<(u32, u32)>) {
+        let eol = if text.contains("\r\n") { "\r\n" } else { "\n" };
+        let mut lines: Vec<String> = text.split('\n').map(|l| l.trim_end_matches('\r').to_string()).collect();
+        let mut pos = self.fails(cfg, settings, text, op, what).flatten();
+        let mut i = 0usize;
+        while i < lines.len() && self.budget > 0 {
+            let mut cand = lines.clone();
+            cand.remove(i);
+            let t = cand.join(eol);
+            match self.fails(cfg, settings, &t, op, what) {
+                Some(p) => {
+                    lines = cand;
+                    pos = p;
+                }
+                None => i += 1,
+            }
+        }
+        (lines.join(eol), pos)
+    }
+}
+
+/// `--neighbour <file>`: JSON array of {"cfg": <cfg line>, "source": <text>} (cases on which model and
+/// implementation disagreed).  For each, `--cases` variants are run through the normal case runner (so
+/// the property oracle judges them); the first variants that fail are shrunk and run again.
+fn run_neighbours(args: &Args, out: &mut Out, sessions: &mut Sessions, web: &(WebIdeState, String), path: &str) -> Result<(), String> {
+    let seeds: Vec<Value> = serde_json::from_str(&std::fs::read_to_string(path).map_err(|e| e.to_string())?).map_err(|e| e.to_string())?;
+    let mut doc_no = 1_000_000u64;
+    let mut shrinks_left = 3;
+    for (i, e) in seeds.iter().enumerate() {
+        let base = Cfg::parse_line(e["cfg"].as_str().unwrap_or("")).ok_or("bad cfg line in the neighbour file")?;
+        let source = e["source"].as_str().unwrap_or("").to_string();
+        for j in 0..args.cases {
+            let n = 100_000 + (i as u64) * 1_000 + j;
+            let mut r = Rng::for_case(args.seed, n);
+            let (text, cfg) = if j == 0 { (source.clone(), base.clone()) } else { (neighbour_text(&mut r, &source), neighbour_cfg(&mut r, &base)) };
+            let (ranges, pos) = dense_positions(&mut r, &text, 3);
+            out.line(format!("case {n}"));
+            out.line("tag neighbour");
+            CASE_FAILURES.with(|f| f.borrow_mut().clear());
+            run_case(out, sessions, web, &mut r, &cfg, &text, &ranges, &pos, &mut doc_no)?;
+            out.line("end");
+            let fails = CASE_FAILURES.with(|f| f.borrow().clone());
+            out.add("neighbour-variants", 1);
+            if let Some((op, what)) = fails.first() {
+                out.add("neighbour-variants-failing", 1);
+                if shrinks_left > 0 && what != "panic" {
+                    shrinks_left -= 1;
+                    let settings = cfg.settings(&mut r);
+                    let mut p = Prober { sessions: &mut *sessions, web, doc_no: &mut doc_no, budget: 1500 };
+                    let (small, at) = p.shrink(&cfg, &settings, &text, op, what);
+                    let (ranges, pos): (Vec<(u32, u32, u32, u32)>, Vec<(u32, u32)>) = match (op.as_str(), at) {
+                        ("ontype", Some((l, c))) => (vec![], vec![(l, c)]),
+                        ("range", Some((l, _))) => (vec![(l, 0, l, 1)], vec![]),
+                        _ => (vec![], vec![]),
+                    };
+                    out.line(format!("case {}", n + 500));
+                    out.line("tag neighbour");
+                    out.line("tag shrunk");
+                    run_case(out, sessions, web, &mut r, &cfg, &small, &ranges, &pos, &mut doc_no)?;
+                    out.line("end");
+                    out.add("neighbour-shrunk", 1);
+                }
+            }
+        }
+    }
+    Ok(())
+}
+
 pub fn run(args: &Args) -> i32 {
     let mut out = Out::new();
     if let Some(t) = args.extra.get("lex") {
@@ -1794,7 +2149,14 @@ pub fn run(args: &Args) -> i32 {
     let nw = wit.len() as u64;
     let mut doc_no = 0u64;
     let mut code = 0;
-    for n in args.case_numbers() {
+    let neighbour = args.extra.get("neighbour").cloned();
+    if let Some(path) = &neighbour {
+        if let Err(e) = run_neighbours(args, &mut out, &mut sessions, &web, path) {
+            eprintln!("neighbourhood search: harness error: {e}");
+            code = 3;
+        }
+    }
+    for n in if neighbour.is_some() { Vec::new() } else { args.case_numbers() } {
         let mut r = Rng::for_case(args.seed, n);
         out.line(format!("case {n}"));
         let res: Result<(), String> = if n == 0 {
@@ -1806,8 +2168,13 @@ pub fn run(args: &Args) -> i32 {
             out.line("tag nontrivial");
             run_case(&mut out, &mut sessions, &web, &mut r, &w.cfg, w.text, w.ranges, w.ontype, &mut doc_no)
         } else {
-            let cfg = gen_cfg(&mut r);
+            let mut cfg = gen_cfg(&mut r);
             let (text, tags) = gen_text(&mut r);
+            let risky = tags.first() == Some(&"risky");
+            if risky && r.bool() {
+                // half of these texts with a line limit that their long lines exceed
+                cfg.max_len = Some(*r.pick(&[30u64, 40, 60]));
+            }
             for t in &tags {
                 out.line(format!("tag {t}"));
                 out.count(&format!("text-{t}"));
@@ -1829,7 +2196,19 @@ pub fn run(args: &Args) -> i32 {
             if c.toks.len() >= 3 && text.contains('\n') {
                 out.line("tag nontrivial");
             }
-            let (ranges, pos) = gen_positions(&mut r, &text);
+            let (mut ranges, mut pos) = gen_positions(&mut r, &text);
+            if risky {
+                // several more requests, aimed at non-blank lines
+                let code_lines: Vec<u32> = text.split('\n').enumerate().filter(|(_, l)| !l.trim().is_empty()).map(|(i, _)| i as u32).collect();
+                for _ in 0..3 {
+                    if !code_lines.is_empty() {
+                        let l = *r.pick(&code_lines);
+                        pos.push((l, text.split('\n').nth(l as usize).map(|s| s.trim_end_matches('\r').chars().count() as u32).unwrap_or(0)));
+                        let l2 = *r.pick(&code_lines);
+                        ranges.push((l2.min(l), 0, l2.max(l), 1));
+                    }
+                }
+            }
             run_case(&mut out, &mut sessions, &web, &mut r, &cfg, &text, &ranges, &pos, &mut doc_no)
         };
         out.line("end");
